@@ -278,7 +278,7 @@ def c10_serialization(a: int, b: int, sa: int, sb: int, boost: int, layout: int,
     return ok
 
 
-def check_aliases(variant, virt, nsdepth, members):
+def check_aliases(variant, virt, nsdepth, members, ign=0):
     """the same template instantiation under two MATLAB names (two typedefs, or an instantiation list plus a typedef)"""
     path = ("geo", "deep")[:nsdepth]
     q = "".join(x + "::" for x in path)
@@ -294,10 +294,21 @@ def check_aliases(variant, virt, nsdepth, members):
         decl = "template<T = {double}> %sclass Box { %s }; typedef %sBox<double> Alias; typedef %sBox<double> Alias2; class Plain { Plain(); };" % (v, body, q, q)
         names = ["BoxDouble", "Alias", "Alias2", "Plain"]
     text = "".join("namespace %s { " % x for x in path) + decl + " }" * nsdepth
-    files, cpp, _w = pipe.matlab(text)
+    ignored = names[1] if ign else None
+    files, cpp, _w = pipe.matlab(text, ignore=[q + ignored] if ign else [""])
     problems = []
     flatns = "".join(path)
+    if ign:
+        flat = flatns + ignored
+        left = [what for what, present in (("classdef file", pkg(path) + ignored + ".m" in files), ("collector", ("Collector_%s;" % flat) in cpp),
+                                            ("clean-up entry", ("collector_%s.begin()" % flat) in cpp), ("RTTI entry", ('"%s"));' % flat) in cpp),
+                                            ("typedef", re.search(r"^typedef [^;]* %s;$" % ignored, cpp, re.M) is not None),
+                                            ("routines", re.search(r"^void %s_\w+_\d+\(" % flat, cpp, re.M) is not None)) if present]
+        if left:
+            problems.append("ignored class %s%s still has: %r" % (q, ignored, left))
     for n in names:
+        if n == ignored:
+            continue
         flat = flatns + n
         key = pkg(path) + n + ".m"
         if key not in files:
@@ -316,17 +327,19 @@ def check_aliases(variant, virt, nsdepth, members):
     return True
 
 
-def c10_aliases(variant: int, virt: int, nsdepth: int, members: int) -> bool:
+def c10_aliases(variant: int, virt: int, nsdepth: int, members: int, ign: int) -> bool:
     """
     One template instantiation wrapped under two MATLAB names (two typedef aliases; an instantiation list plus an alias; an
     alias of an enumerated instantiation next to a plain class): every name has its classdef, exactly one collector
     declaration, one clean-up entry, its routines, and an RTTI entry iff the class is virtual.
-    pre: 0 <= variant <= 2 and 0 <= virt <= 1 and 0 <= nsdepth <= 2 and 0 <= members <= 2
+    With one of the names on the ignore list, that name has no artefact at all (file, collector, clean-up, RTTI, typedef,
+    routines) and the others keep theirs.
+    pre: 0 <= variant <= 2 and 0 <= virt <= 1 and 0 <= nsdepth <= 2 and 0 <= members <= 2 and 0 <= ign <= 1
     post: _
     """
-    variant, virt, nsdepth, members = pick(variant, 0, 3), pick(virt, 0, 2), pick(nsdepth, 0, 3), pick(members, 0, 3)
+    variant, virt, nsdepth, members, ign = pick(variant, 0, 3), pick(virt, 0, 2), pick(nsdepth, 0, 3), pick(members, 0, 3), pick(ign, 0, 2)
     with concrete():
-        ok = check_aliases(variant, virt, nsdepth, members)
+        ok = check_aliases(variant, virt, nsdepth, members, ign)
     reached({"variant": variant, "virtual": virt, "nsdepth": nsdepth, "members": members})
     return ok
 
@@ -337,8 +350,8 @@ def conds(tier):
     M = "harness.c10"
     bc = "%d first classes x %s second classes x %%s%s" % (NREP, "%d representative" % len(BREPS) if q else "%d" % NREP, "" if q else " x 3 ignore choices")
     return [
-        xh.Cond(M, "c10_aliases", t(200, 600), kind="shape-bounded", examples=["variant=0, virt=1, nsdepth=1, members=1", "variant=1, virt=0, nsdepth=2, members=0", "variant=2, virt=1, nsdepth=0, members=2"],
-                bounds="3 alias layouts x virtual x namespace depth 0-2 x 3 member sets"),
+        xh.Cond(M, "c10_aliases", t(200, 600), kind="shape-bounded", examples=["variant=0, virt=1, nsdepth=1, members=1, ign=0", "variant=1, virt=0, nsdepth=2, members=0, ign=1", "variant=2, virt=1, nsdepth=0, members=2, ign=1", "variant=0, virt=1, nsdepth=2, members=1, ign=1"],
+                bounds="3 alias layouts x virtual x namespace depth 0-2 x 3 member sets x one name ignored | none"),
         xh.Cond(M, "c10_serialization", t(420, 1800), kind="shape-bounded", path_timeout=90, examples=["a=2, b=0, sa=1, sb=0, boost=1, layout=0, ign=0", "a=1, b=3, sa=1, sb=1, boost=0, layout=1, ign=1"],
                 bounds="%d x %d class shapes (method-less, static-only, property-only included) x serialize on either class x serialization option%s" % (len(SREPS), 4 if q else len(SREPS), " (not both off)" if q else " x 2 layouts x ignore")),
         xh.Cond(M, "c10_census_even", t(420, 3600), kind="shape-bounded", path_timeout=90, examples=["a=4, b=2, layout=1, ign=2", "a=11, b=0, layout=3, ign=0"], bounds=bc % "layouts 0,2,4,6"),
